@@ -128,11 +128,17 @@ def coq_build(log):
     ok, msg = True, ''
     # source-derived parameters (translator); optional until built
     sp = os.path.join(BUILD, 'srcparams')
-    if os.path.exists(sp):
-        rc, out = sh([sp, '-repo', REPO, '-out', os.path.join(TH, 'Generated', 'SrcParams.v')], env=GOENV)
-        log.append(out)
+    spsrc = glob.glob(os.path.join(ROOT, 'harness', 'cmd', 'srcparams', '*.go'))
+    d = sha_files(spsrc)
+    if not (stamp_ok('srcparams.stamp', d) and os.path.exists(sp)):
+        rc, out = sh(['go', 'build', '-o', sp, './cmd/srcparams'], cwd=os.path.join(ROOT, 'harness'), env=GOENV, timeout=600)
         if rc != 0:
-            return False, 'translator srcparams failed: ' + out.strip()[-500:]
+            return False, 'translator srcparams does not build: ' + out[-800:]
+        stamp_write('srcparams.stamp', d)
+    rc, out = sh([sp, '-repo', REPO, '-out', os.path.join(TH, 'Generated', 'SrcParams.v')], env=GOENV)
+    log.append(out)
+    if rc != 0:
+        return False, 'translator srcparams failed (a constant the model depends on was not found in the sources): ' + out.strip()[-500:]
     rc, out = sh(['sh', os.path.join(COQ, 'mkproject.sh')])
     if rc != 0: return False, 'coq_makefile failed: ' + out
     rc, out = sh('timeout 3000 make -j16 2>&1', cwd=COQ)
